@@ -124,6 +124,11 @@ func (c *WhipClient) Close() error {
 	}
 	if c.connection != nil {
 		id := c.connection.Id()
+		// as in delUpConn: a push that is still pending must not
+		// create down connections that nobody will ever close
+		c.connection.mu.Lock()
+		c.connection.closed = true
+		c.connection.mu.Unlock()
 		c.connection.pc.OnICEConnectionStateChange(nil)
 		c.connection.pc.Close()
 		c.connection = nil
